@@ -601,7 +601,11 @@ def run(ctx: vlib.Ctx):
         if f["cls"] == "overlapping_reread_replace_windows":
             pid = wit.get("pair", "P1-same-base")
             sc = pairs[pid]
-            sched = f27_schedule(names_of(pid))
+            try:
+                sched = f27_schedule(names_of(pid))
+            except (ValueError, StopIteration):
+                ctx.notes.append(f"known finding {f['id']}: the witness schedule cannot be built (the writers no longer re-read)")
+                continue
             r = pair_worker((pid, sc, sched))
             both = all(x and x["status"] == "success" for x in r["results"])
             if both and overlapping_reread_replace_windows(r["records"]):
